@@ -1,6 +1,6 @@
 (* C05 — Grammar analysis is exact: productions, minimum depths, recursion.
    Only statements closed by [exact]; Print Assumptions; non-vacuity example. *)
-From GE Require Import Base Grammar RegProofs WellTyped DistProofs UsableProofs.
+From GE Require Import Base Grammar RegProofs WellTyped DistProofs UsableProofs KnownRefuted.
 Open Scope Z_scope.
 
 (* productions: for every class hierarchy, the rules of the analysed grammar have unique keys, each
@@ -55,6 +55,14 @@ Theorem C05_usable_symbols_exact : forall d g fuel cs,
   forall s, In s cs <-> ureach d g (SC (d_start d)) s.
 Proof. exact usable_symbols_exact. Qed.
 Print Assumptions C05_usable_symbols_exact.
+
+(* known finding F35 as a theorem about the model: usable_grammar() keeps an abstract parent that is not reachable *)
+Theorem C05_usable_ancestor_refuted :
+  exists g u, extract ex35 id_order = Ok g /\ usable g id_order = Ok u /\
+    mem_sym (SC 2%nat) (r_nodes (g_reg u)) = true /\
+    (forall cs, usable_bfs 40 (g_decl g) g [SC 0%nat] [SC 0%nat] = Ok cs -> mem_sym (SC 2%nat) cs = false).
+Proof. exact usable_keeps_an_unreachable_ancestor. Qed.
+Print Assumptions C05_usable_ancestor_refuted.
 
 (* ---- non-vacuity: E -> Lit(int) | Neg(E) | Pair(tuple[E, int]) | Many(list[E] non-empty) ---- *)
 Definition ex5 : decl :=
